@@ -48,6 +48,11 @@ CLAIMS = {
              "2^bpp values for bpp<=8 and boundary+seeded values otherwise, at every x offset within a 32-bit word, by the "
              "scanline and single-pixel readers, a 1x1 repeating source, directly and through accessor callbacks, under "
              "the default implementation chain and with PIXMAN_DISABLE (general only); TLC validates every logged buffer. "
+             "Accessor equivalence of every drawing entry point (trapezoid / triangle rasterisation on a1, a4, a8 with "
+             "slanted bands of every width 1..8 at every x offset, composite_trapezoids / triangles, composite32 over an "
+             "operator x format x mask sample, fill_boxes / fill_rectangles, composite_glyphs(_no_mask)): the request is "
+             "executed on directly addressed images and on accessor-wrapped twins (destination, source, mask, all) and TLC "
+             "demands ViaAccessors(req) = Direct(req) on the whole buffer, row padding included. "
              "sRGB colour channels: end points, monotonicity and round trip only; YUV: alpha and reader agreement only.",
         ref="5 C10"),
 }
@@ -365,6 +370,170 @@ def gen_c10_cases(fmts, bwords, rng, tier):
 
 # ------------------------------------------------------------------------------------------
 
+# ------------------------------------------------------------------------------------------
+# C10, last sentence: every drawing entry point on accessor-wrapped twins = on directly addressed images
+
+def fx(v):
+    return int(round(v * 65536.0))
+
+
+def equiv_img(tag, F, w, h, rng, flag=None, fill="noise", extra_pad=True):
+    """script tokens of one image: random (or zero / opaque) bytes, stride with padding bytes where possible"""
+    if F is None:
+        return "%s 0 0 0 0 -%s" % (tag, "" if flag is None else " 0")
+    stride = ((w * F.bpp + 31) // 32) * 4
+    if extra_pad and F.bpp != 128:
+        stride += 4
+    n = stride * h
+    if fill == "zero":
+        b = bytes(n)
+    elif fill == "ones":
+        b = bytes([255]) * n
+    else:
+        b = bytes(rng.getrandbits(8) for _ in range(n))
+    return "%s %d %d %d %d %s%s" % (tag, F.code, w, h, stride, b.hex(), "" if flag is None else " %d" % flag)
+
+
+def band_trapezoid(x0, width, slant, top=1, bottom=5):
+    if slant < 0:
+        x0 -= (bottom - top) * slant
+    dx = (bottom - top) * slant
+    return [fx(top), fx(bottom), fx(x0), fx(top), fx(x0 + dx), fx(bottom), fx(x0 + width), fx(top), fx(x0 + width + dx), fx(bottom)]
+
+
+def band_trap(x0, width, slant, top=1, bottom=5):
+    t = band_trapezoid(x0, width, slant, top, bottom)
+    return [t[2], t[6], t[0], t[4], t[8], t[1]]            # top.l top.r top.y bot.l bot.r bot.y
+
+
+def band_triangles(x0, width, slant, top=1, bottom=5):
+    t = band_trapezoid(x0, width, slant, top, bottom)
+    tl, tr, bl, br = (t[2], t[0]), (t[6], t[0]), (t[4], t[1]), (t[8], t[1])
+    return [list(tl + tr + bl), list(tr + br + bl)]
+
+
+def gen_equiv_cases(fmts, rng, tier):
+    """requests for harness/drv_accequiv.c; returns [(entry, destination format name, script line)]"""
+    quick = tier == "quick"
+    A8, A4, A1, A8888 = fmts["a8"], fmts["a4"], fmts["a1"], fmts["a8r8g8b8"]
+    out = []
+    none_s, none_m = equiv_img("S", None, 0, 0, rng, 0), equiv_img("M", None, 0, 0, rng, 0)
+    W, H = 37, 6
+
+    def add(entry, variants, D, S, M, params, dname):
+        out.append((entry, dname, "E %s %d %s %s %s %s P %d %s" % (
+            entry, len(variants), " ".join(map(str, variants)), D, S, M, len(params), " ".join(map(str, params)))))
+
+    # ---- slanted bands of every small width at every x offset, shallow and steep
+    slants = [0.05, 0.25, 1.0, 2.5, 3.5, -1.5, -3.25, 5.5]
+    bands = [(x0 + frac, width, sl) for width in range(1, 9) for x0 in range(8) for frac in (0.0, 0.5) for sl in slants]
+    if not quick:
+        bands += [(x0 + rng.random(), width + rng.random() - 0.5, rng.uniform(-4, 4)) for width in range(1, 9)
+                  for x0 in range(8) for _ in range(6)]
+    k = 0
+    for (x0, width, sl) in bands:
+        k += 1
+        for F, every in ((A8, 1), (A4, 4 if quick else 1), (A1, 4 if quick else 1)):
+            if k % every:
+                continue
+            fill = "zero" if k % 3 == 0 else "noise"
+            D = equiv_img("D", F, W, H, rng, fill=fill)
+            entry = ("rast_trap", "add_trapezoids", "add_traps", "add_triangles")[(k // every) % 4]
+            xo, yo = (0, 0) if k % 5 else (rng.randint(-1, 1), rng.randint(0, 1))
+            if entry == "rast_trap":
+                add(entry, [1], D, none_s, none_m, [xo, yo] + band_trapezoid(x0, width, sl), F.name)
+            elif entry == "add_trapezoids":
+                add(entry, [1], D, none_s, none_m, [xo, yo, 1] + band_trapezoid(x0, width, sl), F.name)
+            elif entry == "add_traps":
+                add(entry, [1], D, none_s, none_m, [xo, yo, 1] + band_trap(x0, width, sl), F.name)
+            else:
+                t1, t2 = band_triangles(x0, width, sl)
+                add(entry, [1], D, none_s, none_m, [xo, yo, 2] + t1 + t2, F.name)
+        # ---- composite_trapezoids / triangles: into an a8 destination directly (ADD of opaque white), and through a mask
+        if k % (6 if quick else 2) == 0:
+            j = k // 6
+            if j % 2 == 0:
+                D = equiv_img("D", A8, W, H, rng, fill="noise" if j % 4 else "zero")
+                S = equiv_img("S", A8888, 1, 1, rng, 1, fill="ones", extra_pad=False)
+                op, mf, dname = 12, A8.code, "a8"
+            else:
+                DF = [A8888, fmts["r5g6b5"], fmts["x8r8g8b8"], A8][j % 4]
+                D = equiv_img("D", DF, W, H, rng)
+                S = equiv_img("S", A8888, W, H, rng, 0)
+                op, mf, dname = [3, 12, 1, 3][j % 4], [A8.code, A1.code, A4.code][j % 3], DF.name
+            if j % 3:
+                add("comp_traps", [1, 2, 3], D, S, none_m, [op, mf, 0, 0, 0, 0, 1] + band_trapezoid(x0, width, sl), dname)
+            else:
+                t1, t2 = band_triangles(x0, width, sl)
+                add("comp_tris", [1, 2, 3], D, S, none_m, [op, mf, 0, 0, 0, 0, 2] + t1 + t2, dname)
+
+    # ---- pixman_image_composite32: operators x formats (1, 4, 8, 16, 24, 32 bpp, wide) x masks
+    ops = [1, 3, 12, 5, 8, 11, 4, 48, 19, 57, 13]
+    dnames = ["a8r8g8b8", "x8r8g8b8", "r5g6b5", "a8", "a4", "a1", "r8g8b8", "a1r5g5b5", "r1g2b1", "a2r10g10b10", "b8g8r8a8",
+              "x4a4", "a1r1g1b1", "b8g8r8"]
+    snames = ["a8r8g8b8", "x8r8g8b8", "r5g6b5", "a8", "a4", "a1", "r8g8b8", "a4r4g4b4", "b1g2r1", "x2b10g10r10"]
+    mnames = [None, "a8", "a1", "a8r8g8b8", "a4", None]
+    nco = 330 if quick else 2500
+    for i in range(nco):
+        DF, SF = fmts[dnames[i % len(dnames)]], fmts[rng.choice(snames)]
+        mn = mnames[(i // len(dnames)) % len(mnames)]
+        MF = fmts[mn] if mn else None
+        w, h = 13, 3
+        D = equiv_img("D", DF, w, h, rng)
+        solid = (i % 7 == 0)
+        S = equiv_img("S", SF, 1 if solid else w, 1 if solid else h, rng, 1 if solid else 0, extra_pad=not solid)
+        M = equiv_img("M", MF, w, h, rng, 1 if (mn == "a8r8g8b8" and i % 2) else 0) if MF else none_m
+        dx, dy = rng.randint(0, 3), rng.randint(0, 1)
+        cw, ch = rng.randint(1, w - dx), rng.randint(1, h - dy)
+        sx, sy = (0, 0) if solid else (rng.randint(0, w - cw), rng.randint(0, h - ch))
+        mx, my = rng.randint(0, w - cw), rng.randint(0, h - ch)
+        add("composite", [1, 2, 4, 7] if MF else [1, 2, 3], D, S, M,
+            [ops[i % len(ops)], sx, sy, mx, my, dx, dy, cw, ch], DF.name)
+
+    # ---- pixman_image_fill_boxes / fill_rectangles
+    for i in range(120 if quick else 900):
+        DF = fmts[["a8r8g8b8", "r5g6b5", "a8", "a1", "a4", "r8g8b8", "x8r8g8b8", "a1r5g5b5"][i % 8]]
+        w, h = 21, 4
+        D = equiv_img("D", DF, w, h, rng)
+        op = [1, 3, 12, 0, 3][i % 5]
+        a = rng.choice([0xffff, 0xffff, 0x8000, 0x0000, 0x1234])
+        col = [min(rng.getrandbits(16), a), min(rng.getrandbits(16), a), min(rng.getrandbits(16), a), a]
+        nb = rng.randint(1, 3)
+        if i % 2:
+            boxes = []
+            for _ in range(nb):
+                x1, y1 = rng.randint(0, w - 1), rng.randint(0, h - 1)
+                boxes += [x1, y1, rng.randint(x1 + 1, w), rng.randint(y1 + 1, h)]
+            add("fill_boxes", [1], D, none_s, none_m, [op] + col + [nb] + boxes, DF.name)
+        else:
+            rects = []
+            for _ in range(nb):
+                x1, y1 = rng.randint(0, w - 1), rng.randint(0, h - 1)
+                rects += [x1, y1, rng.randint(1, w - x1), rng.randint(1, h - y1)]
+            add("fill_rects", [1], D, none_s, none_m, [op] + col + [nb] + rects, DF.name)
+
+    # ---- pixman_composite_glyphs / _no_mask
+    for i in range(120 if quick else 900):
+        DF = fmts[["a8r8g8b8", "r5g6b5", "a8", "x8r8g8b8", "a1r5g5b5"][i % 5]]
+        GF = [A8, A1, A8888, A4][i % 4]
+        w, h = 23, 7
+        D = equiv_img("D", DF, w, h, rng)
+        solid = i % 3 == 0
+        S = equiv_img("S", A8888, 1 if solid else w, 1 if solid else h, rng, 1 if solid else 0, extra_pad=not solid)
+        M = equiv_img("M", GF, 5, 5, rng, 1 if GF is A8888 else 0)
+        op = [3, 12, 1, 3][i % 4]
+        n = rng.randint(1, 4)
+        pos = []
+        for _ in range(n):
+            pos += [rng.randint(1, w - 5), rng.randint(1, h - 5)]
+        if i % 2:
+            maskfmt = GF.code if GF in (A8, A8888) else A8.code
+            add("glyphs", [1, 2, 4, 7], D, S, M, [op, maskfmt, 0, 0, 0, 0, 0, 0, w, h, n] + pos, DF.name)
+        else:
+            add("glyphs", [1, 2, 4, 7], D, S, M, [op, 0, 0, 0, 0, 0, 0, 0, w, h, n] + pos, DF.name)
+    return out
+
+
 MC_CODES_NOTE = "spec/mc/FormatsMC.tla AllCodes"
 
 
@@ -428,6 +597,8 @@ def run_c10(args):
         e = dict(os.environ)
         if os.path.exists(script + ".general"):
             e["PIXMAN_DISABLE"] = open(script + ".general").read().strip()
+        if any(l.startswith("E ") for l in open(script)):
+            exe, _ = vf.build_driver("drv_accequiv", "plain")
         vf.sh([exe, script, tr], timeout=600, env=e)
         vf.validate_batches(chk, "FormatsTrace", [tr], parallel=1)
         return chk.finish()
@@ -457,9 +628,22 @@ def run_c10(args):
     nb = 12 if quick else 48
     traces = run_driver(exe, lines, wd, "def", nb)
     traces_g = run_driver(exe, lines, wd, "gen", nb, env_extra=GENERAL_ONLY)
+    # 3b. accessor equivalence of every drawing entry point (ViaAccessors(req) = Direct(req))
+    exe_e, _ = vf.build_driver("drv_accequiv", "plain")
+    ecases = gen_equiv_cases(fmts, rng, args.tier)
+    elines = [c[2] for c in ecases]
+    traces += run_driver(exe_e, elines, wd, "eqd", 12)
+    traces_g += run_driver(exe_e, elines, wd, "eqg", 12, env_extra=GENERAL_ONLY)
+    byentry = {}
+    for entry, dname, line in ecases:
+        byentry["%s -> %s" % (entry, dname)] = byentry.get("%s -> %s" % (entry, dname), 0) + 1
+        chk.distinct_keys.add(hashlib.sha1(line.encode()).hexdigest()[:16])
+    chk.extra["accessor_equivalence_requests"] = len(ecases)
+    chk.extra["accessor_equivalence_by_entry_point"] = byentry
+    chk.sample({"accessor_equivalence_script_line": elines[0][:260]})
     for tr in traces + traces_g:
         for line in open(tr):
-            if line.startswith('{"e":"Fetch"') or line.startswith('{"e":"Store"'):
+            if line.startswith('{"e":"Fetch"') or line.startswith('{"e":"Store"') or line.startswith('{"e":"Equiv"'):
                 chk.evaluations += 1
     for kind, F, C, line in cases:
         chk.distinct_keys.add(hashlib.sha1(line.encode()).hexdigest()[:16])
@@ -505,7 +689,7 @@ def save_replay_script(v, wd, general_traces):
         while j < len(lines) and not lines[j].startswith("R "):
             j += 1
         open(v["replay"] + ".script", "w").write("\n".join(lines[i:j]) + "\n")
-        if base.startswith("gen"):
+        if base.startswith("gen") or base.startswith("eqg"):
             open(v["replay"] + ".script.general", "w").write("fast mmx sse2 ssse3\n")
         if base.startswith("cfp"):
             open(v["replay"] + ".script.general", "w").write("mmx sse2 ssse3\n")
